@@ -1,5 +1,6 @@
 import SurfProofs.Lemmas.KittyMon
 import SurfProofs.Lemmas.KittyStream
+import SurfProofs.Lemmas.KittyWrite
 /-!
 # C11 — kitty graphics output transmits exactly the image; draw and erase stay paired
 
@@ -276,6 +277,98 @@ theorem C11_redraw_target (hash : Image → UInt64) (h : Handler) (id p : Nat) (
   rw [List.append_assoc]
   exact cursorTarget_wrapped _ _ hb1 hb2 _
 
+/-! ## writers that fail
+
+`draw`, `erase`, `handle` return at the first write error (`?`). `SurfModel/KittyWrite.lean` is the handler
+model over a writer that accepts `b` more bytes and then fails. -/
+
+open SurfModel.KittyWrite SurfProofs.Lemmas.KittyWrite in
+/-- **C11_write_failure.** Drawing a non-empty image into a writer that accepts only `b` bytes: exactly the
+first `b` bytes of what a working writer would get are written; the call succeeds iff everything fitted;
+and the handler records the image as transmitted iff it already held it or the complete transmission is
+among the bytes written — then those bytes begin with a byte string the protocol reads as the whole
+transmission of the image (so a later draw that only places it refers to an image the terminal has);
+otherwise the handler's state is unchanged, and a later draw transmits again. -/
+theorem C11_write_failure (hash : Image → UInt64) (h : Handler) (img : Image) (wf : WF img)
+    (hne : img.isEmpty = false) (row col b : Nat) :
+    let full := (draw hash h img row col).2
+    let tx := txBytes hash h img
+    let r := drawW hash h img row col (Writer.new (some b))
+    r.2.1.out = full.take b ∧ (r.2.2 = true ↔ full.length ≤ b) ∧
+    (h.contains (idOf hash img) = true ∨ b < tx.length → r.1 = h) ∧
+    (h.contains (idOf hash img) = false → tx.length ≤ b →
+      r.1 = (draw hash h img row col).1 ∧ kitty tx = some [txCmd (idOf hash img) img] ∧
+      r.2.1.out = tx ++ (putBytes (idOf hash img) (placementId row col) (h.suppress.getD 0)).take (b - tx.length)) := by
+  intro full tx r
+  have hb : full = tx ++ putBytes (idOf hash img) (placementId row col) (h.suppress.getD 0) :=
+    draw_bytes hash h img hne row col
+  have heq := drawW_eq hash h img hne row col (Writer.new (some b))
+  have hfull := writeAll_new b full
+  have htx := writeAll_new b tx
+  have hlen : tx.length ≤ full.length := by rw [hb]; simp
+  by_cases hc : h.contains (idOf hash img) = true
+  · have hr : r = (h, ((Writer.new (some b)).writeAll full).1, ((Writer.new (some b)).writeAll full).2) := by
+      simp only [r, heq, hc, if_true, full]
+    refine ⟨by rw [hr]; exact hfull.1, by rw [hr]; exact hfull.2, fun _ => by rw [hr], fun hc' => ?_⟩
+    rw [hc] at hc'; cases hc'
+  · have hc' : h.contains (idOf hash img) = false := by simpa using hc
+    by_cases hfit : tx.length ≤ b
+    · have hok : ((Writer.new (some b)).writeAll tx).2 = true := htx.2.mpr hfit
+      have hr : r = ((draw hash h img row col).1, ((Writer.new (some b)).writeAll full).1,
+          ((Writer.new (some b)).writeAll full).2) := by
+        simp only [r, heq, hc', Bool.false_eq_true, if_false, tx] at hok ⊢
+        simp only [hok, if_true, full]
+      refine ⟨by rw [hr]; exact hfull.1, by rw [hr]; exact hfull.2, fun hh => ?_, fun _ _ => ⟨by rw [hr], ?_, ?_⟩⟩
+      · rcases hh with hh | hh
+        · rw [hc'] at hh; cases hh
+        · omega
+      · have : tx = emitChunks (idOf hash img) img.shape.height img.shape.width (h.suppress.getD 0)
+            (chunks 4096 (payloadOf img)).length 0 (chunks 4096 (payloadOf img)) := by simp [tx, txBytes, hc']
+        rw [this]; exact (emits_tx wf hne _ _).kitty
+      · rw [hr]; simp only []; rw [hfull.1, hb, List.take_append]
+        congr 1
+        exact List.take_of_length_le hfit
+    · have hnok : ((Writer.new (some b)).writeAll tx).2 = false := by
+        cases hx : ((Writer.new (some b)).writeAll tx).2
+        · rfl
+        · exact absurd (htx.2.mp hx) hfit
+      have hr : r = (h, ((Writer.new (some b)).writeAll tx).1, false) := by
+        simp only [r, heq, hc', Bool.false_eq_true, if_false, tx] at hnok ⊢
+        simp only [hnok, Bool.false_eq_true, if_false]
+      have hlt : b < tx.length := by omega
+      refine ⟨?_, ?_, fun _ => by rw [hr], fun _ hh => absurd hh hfit⟩
+      · rw [hr]; simp only []; rw [htx.1, hb, List.take_append_of_le_length (by omega)]
+      · rw [hr]; simp only []
+        constructor
+        · intro hh; cases hh
+        · intro hh; omega
+
+open SurfModel.KittyWrite SurfProofs.Lemmas.KittyWrite in
+/-- **C11_write_failure_handle.** `handle` on an error response into any writer: the entry of the image is
+removed in any case; it is recorded again only if the bytes written contain the complete transmission of
+the stored image. -/
+theorem C11_write_failure_handle (hash : Image → UInt64) (h : Handler) (id : Nat) (placement : Option Nat)
+    (wr : Writer) :
+    let r := handleEventW hash h (.kittyImage id placement true) wr
+    r.1.imgs = h.imgs.filter (fun e => e.1 != id) ∨
+    ∃ img pre rest, h.imgs.lookup id = some img ∧
+      r.1.imgs = (idOf hash img, img) :: h.imgs.filter (fun e => e.1 != id) ∧
+      r.2.1.out = wr.out ++ pre ++ txBytes hash ⟨h.imgs.filter (fun e => e.1 != id), some 2⟩ img ++ rest :=
+  handleEventW_records hash h id placement wr
+
+open SurfModel.KittyWrite SurfProofs.Lemmas.KittyWrite in
+/-- **C11_working_writer.** With working writers the model over writers is the model of `C11_once`. -/
+theorem C11_working_writer (hash : Image → UInt64) (h : Handler) (ev : Ev) :
+    (stepW hash h ev none).1 = (step hash h ev).1 ∧ (stepW hash h ev none).2.1 = (step hash h ev).2 ∧
+    (stepW hash h ev none).2.2 ≠ none :=
+  stepW_unbounded hash h ev
+
+/-- **C11_ids_in_range.** Image and placement ids fit the protocol's 32-bit id range and are never 0. -/
+theorem C11_ids_in_range (hash : Image → UInt64) (img : Image) (row col : Nat) :
+    1 ≤ idOf hash img ∧ idOf hash img ≤ 4294967295 ∧ 1 ≤ placementId row col ∧ placementId row col ≤ 4294967295 := by
+  unfold idOf imageId placementId KITTY_MAX_ID
+  omega
+
 /-- placement ids are injective on the domain -/
 theorem C11_placement_injective {row col row' col' : Nat} (h : Dom row col) (h' : Dom row' col')
     (e : placementId row col = placementId row' col') : row = row' ∧ col = col' :=
@@ -342,6 +435,12 @@ example : accepts Mon.init
      (.draw (content exImg2) 1 1, (draw (fun _ => 5) Handler.new exImg2 1 1).2)] = false := by decide
 /-- while the handler's own second draw is accepted -/
 example : accepts Mon.init (trace exHash Handler.new [.draw exImg2 0 0, .draw exImg2 1 1]) = true := by decide
+
+/-- writers that fail, on the 1×1 example: cut inside the transmission nothing is recorded and the next
+draw transmits again; cut inside the placement the image is recorded and the next draw only places it -/
+example : (SurfModel.KittyWrite.drawW exHash Handler.new exImg2 0 0 (.new (some 10))).1.imgs = [] := by decide
+example : ((SurfModel.KittyWrite.drawW exHash Handler.new exImg2 0 0 (.new (some 60))).1.imgs.map (·.1)) = [78] ∧
+    (SurfModel.KittyWrite.drawW exHash Handler.new exImg2 0 0 (.new (some 60))).2.2 = false := by decide
 
 /-- the monitor is not trivially satisfied: a placement of an id that was never transmitted is rejected … -/
 example : accepts Mon.init [(.draw ⟨1, 1, [1, 2, 3, 4]⟩ 0 0, putBytes 5 7 0)] = false := by decide
